@@ -12,7 +12,7 @@ TRUSTED = "Trusted base: TLC 1.8, numpy/scipy, OpenMDAO's compute_totals assembl
 CHECKS = {
     "C03": (
         "model_checking",
-        "TLC complete state graph of OASLifecycle (run strategies, guarded refactors, caches, Jacobian stores) over the component table extracted from the tree + replay of emitted histories (depth-bounded, pair-pattern, model counterexamples) into real Problems (live vs fresh) + component-level histories (every component alone: model inputs, then one input zeroed or changed, outputs and Jacobians vs a fresh instance) + TraceLifecycle validation of recorded executions (own histories and the repository's optimisation tests as drivers)",
+        "TLC complete state graph of OASLifecycle (run strategies, guarded refactors, caches, Jacobian stores, Problem.setup() called again with set-up leftovers) over the component table extracted from the tree + replay of emitted histories (depth-bounded, pair-pattern, model counterexamples) into real Problems (live vs fresh) + component-level histories (every component alone: model inputs, then one input zeroed or changed, outputs and Jacobians vs a fresh instance; every component and library group alone: set up again on the same instance, unchanged and after its control points were edited in place, outputs and input defaults vs a new instance) + TraceLifecycle validation of recorded executions (own histories and the repository's optimisation tests as drivers)",
         "OASLifecycle is finite-state over three design points, so TLC explores every reachable abstract state and emits model-level counterexamples; every API-call history up to the depth bound (plus random long ones) is replayed on real aero / aerostructural / multipoint / structural Problems and compared with a freshly built Problem after every step.",
         "Bounds: points p0,p1,p2 (differ in every input), q (one input changed), z (one input exactly zero); histories <= 4 sampled to 450 (quick) / <= 6 + 150 random of length 12 sampled to 2500 (thorough) per model kind, every pair-pattern history set X; run; linearise; set Y; run; linearise, run strategies solve_first / residual_first; every component alone at its model inputs then with one input zeroed (outputs and Jacobians vs fresh); tolerances rel 1e-9 outputs, 1e-8 totals; model kinds listed in evidence. " + TRUSTED,
         "5 C03, 3.3, 4.1, 4.4",
@@ -47,7 +47,7 @@ CHECKS = {
     ),
     "C08": (
         "model_checking",
-        "TLC: OASTopology image quadrant (multiplier -1) + OASLaws.ImageGround composed with scaling, translation, Mirror, Permute, Reorder, Reexpress; replay against explicit reflected surfaces in free air; far-field decay; set-up rejection",
+        "TLC: OASTopology image quadrant (multiplier -1) + OASLaws.ImageGround composed with scaling, translation, Mirror, Permute, Reorder, Reexpress; replay against explicit reflected surfaces in free air; far-field decay; set-up rejection; multi-section surfaces in ground effect (== ordinary surface with the unified mesh; refused without symmetry)",
         "Every behaviour containing ImageGround (depth 3/4) is replayed: the ground-effect model must equal a free-air model containing explicit mirror-image surfaces for every observable of the real surfaces; height sweeps over six decades must converge to free air at >=5x per decade; ground effect without symmetry must raise.",
         "1-2 surfaces, left/right halves, no rotation rates (the image of a rotating aircraft is not a rigid rotation). " + TRUSTED,
         "5 C08, 3.5, 3.8",
@@ -61,7 +61,7 @@ CHECKS = {
     ),
     "C19": (
         "model_checking",
-        "TLC: OASTopology numbering partition + mux/demux bijection, OASLaws.Permute composed with Mirror/Reorder/scaling (1-3 surfaces, mixed-side half models), OASWiring on the connection table of real AeroPoints; replay of permutations, column splits, far-away surfaces, MPhys wrapper groups (1-3 surfaces; wired explicitly and by promotion as an MPhys scenario does) vs native AeroPoint, mux/demux permutation and Jacobian in fwd and rev",
+        "TLC: OASTopology numbering partition + mux/demux bijection, OASLaws.Permute composed with Mirror/Reorder/scaling (1-3 surfaces, mixed-side half models), OASWiring on the connection table of real AeroPoints; replay of permutations, column splits, far-away surfaces, MPhys wrapper groups (1-3 surfaces; wired explicitly and by promotion as an MPhys scenario does) vs native AeroPoint, multi-section surface handed to the point vs an ordinary surface with the unified mesh (ground plane, viscous, next to an ordinary surface), mux/demux permutation and Jacobian in fwd and rev",
         "Panel offsets and (de)multiplexer source indices are proved to be partitions/bijections for every surface list in the box; permutation behaviours are replayed (CM renormalised by the first surface's MAC), a full-span surface is split at every interior column, a surface is moved 10..1e6 chords away, and the MPhys solver/funcs groups fed through the spec's permutation must reproduce the native results; mux/demux total Jacobians must equal the spec's permutation matrix in both modes.",
         "<= 3 surfaces in replays; OASWiring for compressible x rotational x ground x user_specified_Sref; MPhys groups wired by hand without the MPI distributor. " + TRUSTED,
         "5 C19, 3.5",
@@ -75,7 +75,7 @@ CHECKS = {
     ),
     "C11": (
         "model_checking",
-        "TLC: KTransfer exact integer transcription (force and moment conservation about two points, zero/translation/rotation identities) over 1340 cases; every state through the real LoadTransfer, MeshPointForces, ComputeNodes, DisplacementTransfer, ComputeTransformationMatrix; random real inputs from first principles",
+        "TLC: KTransfer exact integer transcription (force and moment conservation about two points, zero/translation/rotation identities) over 1340 cases; every state through the real LoadTransfer, MeshPointForces, ComputeNodes, DisplacementTransfer (symmetry flag on and off), ComputeTransformationMatrix; random real inputs from first principles",
         "The transfer kernels are linear/bilinear in their inputs, so a basis of unit forces plus dense fields on four mesh classes, five spar locations and seven displacement fields exercises every term; conservation laws are invariants of the transcription and every state is an implementation test (1e-12); random deformed meshes and force fields are checked against sum F and sum M about random points, and rigid-motion identities incl. first-order rotation.",
         "nx<=3, ny<=4 in the table (nx<=4, ny<=7 random); aerodynamic centre at quarter chord; rotation magnitudes 1e-2 .. 1e-12 rad in the first-order clause. " + TRUSTED,
         "5 C11, 3.7",
@@ -89,14 +89,14 @@ CHECKS = {
     ),
     "C14": (
         "model_checking",
-        "TLC: KMesh exact rational transcription of the rectangular generator, getFullMesh, the symmetric multi-section generator and unify_mesh with ordering/extent/symmetry/half-full/coincident-edge invariants (222 cases); every state against the real generators; cosine blends, CRM, offsets, 1-4 sections on the code's output; GeomMultiJoin separations of adjacent section edges (zero for coincident edges, the edge offset otherwise, per constrained direction)",
+        "TLC: KMesh exact rational transcription of the rectangular generator, getFullMesh, the multi-section generator (symmetric half, and full span with every root section) and unify_mesh with ordering/extent/symmetry/half-full/coincident-edge/per-section span and taper invariants (244 cases); every state against the real generators; cosine blends, every documented CRM wing type up to num_y = 201, offsets, 1-4 sections (symmetric and full-span) on the code's output; GeomMultiJoin separations of adjacent section edges (zero for coincident edges, the edge offset otherwise, per constrained direction)",
         "Uniform-spacing meshes are exact in TLC and compared node for node; for cosine-spacing blends in [0,1] (uninterpreted Cos), rect and CRM planforms, num_x 2..8 and odd num_y 3..41 the same invariants are evaluated on the code's output: shape, x increasing chordwise, y increasing spanwise, span and root chord, mirror symmetry, offsets as translations, half = left half of full, getFullMesh round trip, coincident section edges, unification = stitched surface (function and component).",
-        "Multi-section: symmetric surfaces with the root section last; the unification component needs >= 2 sections. " + TRUSTED,
+        "Multi-section: F15 (full-span surfaces, sections right of the root) found and fixed (036cf4c); the unification component needs >= 2 sections. " + TRUSTED,
         "5 C14, 3.7",
     ),
     "C15": (
         "model_checking",
-        "TLC: KStress exact rational transcription of tube/wingbox stress recovery on pure states (non-negative, rigid motion adds nothing, quadratic scaling, closed forms), the KS shift discipline for loose and very tight aggregation parameters, KS history cases (the aggregate depends on the current stresses only) and the upper-skin strength knock-down factor (1636 cases); every state through the real components; random fields and KS bounds up to 1e12 Pa, half of them after another stress state on the same instance; wingbox section properties (A, Iy, Iz, J, Qz, htop, hbottom, hfront, hrear) against an independent polygon integration of the documented box section under refinement, twist and chord/thickness scaling; failure cases with the knock-down factor",
+        "TLC: KStress exact rational transcription of tube/wingbox stress recovery on pure states (non-negative, rigid motion adds nothing, quadratic scaling, closed forms), the KS shift discipline for loose and very tight aggregation parameters, KS history cases (the aggregate depends on the current stresses only) and the upper-skin strength knock-down factor (1636 cases); every state through the real components; random fields and KS bounds up to 1e12 Pa, half of them after another stress state on the same instance; the functionals group for fem_model_type x exact_failure_constraint (failure = stress / allowable - 1 element-wise, or the KS aggregate); wingbox section properties (A, Iy, Iz, J, Qz, htop, hbottom, hfront, hrear) against an independent polygon integration of the documented box section under refinement, twist and chord/thickness scaling; failure cases with the knock-down factor",
         "Squared stresses of axial, torsion and constant-curvature states (and combinations with rigid-body motion and scaling) on five element directions equal the closed forms of the element's own section properties; the real VonMisesTube/VonMisesWingbox reproduce every entry; FailureExact = vm/sigma - 1; KS is evaluated for N = 1..400 terms, six magnitude patterns up to 1e12 Pa and four rho values: finite, never below the maximum, at most ln N / rho above it.",
         "Stresses compared squared; Exp/Ln uninterpreted in the spec. " + TRUSTED,
         "5 C15, 3.7",
@@ -117,21 +117,21 @@ CHECKS = {
     ),
     "C20": (
         "model_checking",
-        "TLC: OASSetup (every malformed variant with <= 2 defects through the staged script; NoSilentAcceptance, LoudRejection, UnknownKeysWarned) and OASTwo (all interleavings of two Problems; Isolation over extracted shared state incl. module-level containers); every terminal state and interleaving replayed on the real API (two pairings, one with iterative linear solvers); multi-section workflow with user-supplied section meshes and per-section t/c; MPhys builders created one after the other; snapshot of every class-level / module-level mutable container of openaerostruct before and after a run",
+        "TLC: OASSetup (every malformed variant with <= 2 defects through the staged script; NoSilentAcceptance, LoudRejection, UnknownKeysWarned) and OASTwo (all interleavings of two Problems; Isolation over extracted shared state incl. module-level containers); every terminal state and interleaving replayed on the real API (two pairings, one with iterative linear solvers); multi-section workflow with user-supplied section meshes and per-section t/c; MPhys builders created one after the other; multi-section surface with ground plane but without symmetry refused; snapshot of every class-level / module-level mutable container of openaerostruct before and after a run",
         "All 69 variants of the documented mesh, surface (per model kind) and multi-section dictionaries are stepped through generate_mesh / group constructors / Problem.setup / run_model in the spec and on the real API: a malformed variant must stop with an exception before any number is produced, unknown keys must be warned about; interleavings of the API calls of an aerodynamic and an aerostructural Problem up to depth 4/5 must leave each Problem bit-identical to the same Problem run alone; admissible configurations must give finite outputs, be repeatable between independent Problems and leave every user array unchanged (SHA-1).",
         "Which of several fatal defects is reported first, and whether a warning precedes an error, is not part of the contract (spec is nondeterministic there); any exception class counts as loud. " + TRUSTED,
         "5 C20, 3.2",
     ),
     "C12": (
         "model_checking",
-        "TLC: OASCoupled (dataflow of the incompressible and the Prandtl-Glauert coupled group, one feedback per surface, newest-version reads, sweep consistency, FramesSeparated) + TraceCoupled trace validation of recorded real coupled solves (every component execution, fingerprints of all inputs/outputs) + OASWiring on the connection table of real AerostructPoints for every option combination + the struct_states load wiring for all eight combinations of struct_weight_relief x distributed_fuel_weight x point masses + open-loop re-evaluation (incl. compressible with sideslip, two surfaces, per-surface LoadTransfer), solver/guess/order/previous-point independence (NLBGS, Aitken, true-residual NLBGS, Newton), multipoint isolation, rigid limit",
+        "TLC: OASCoupled (dataflow of the incompressible and the Prandtl-Glauert coupled group, one feedback per surface, newest-version reads, sweep consistency, FramesSeparated) + TraceCoupled trace validation of recorded real coupled solves (every component execution, fingerprints of all inputs/outputs) + OASWiring on the connection table of real AerostructPoints for every option combination + the struct_states load wiring for all eight combinations of struct_weight_relief x distributed_fuel_weight x point masses + open-loop re-evaluation (incl. compressible with sideslip, two surfaces, per-surface LoadTransfer), solver/guess/order/previous-point independence (NLBGS, Aitken, true-residual NLBGS, Newton), multipoint isolation (incl. the MultiCD objective = sum of the points, also after the same Problem was set up again with another solver), rigid limit",
         "The required dataflow of the coupled group is a spec-level table checked for 1-3 surfaces; real coupled solves (NLBGS, NLBGS+Aitken, Newton; 1-2 surfaces; tube/wingbox; weight relief) are recorded by external wrappers and every event is validated against the wires and the sweep order by TLC (a corrupted fingerprint or swapped execution is rejected: binding demonstration run on every check); converged states are re-evaluated open loop with stand-alone instances of the code's own groups; nine nonlinear x linear solver combinations, perturbed initial guesses and returning from another design point give the same outputs and totals; point 0 of a two-point model is bit-identical under changes of point 1 and equal to the single-point model; E,G x 10^k converges to the rigid AeroPoint as 1/E.",
         "Relaxed/Newton-updated feedback values are a named deviation of the trace spec (only forward wires are exact there); non-convergent combinations are inconclusive, not violations. " + TRUSTED,
         "5 C12, 3.4, 4.2",
     ),
     "C01": (
         "exploration",
-        "OASConfig (TLC decides admissibility of configuration x regime records; covering sample) + entry-by-entry comparison of every component's reported sub-Jacobians with numerical differentiation of its own compute (complex step where trustworthy, Richardson FD otherwise), at two points of one live model (the second across the wave-drag onset), plus stand-alone components (atmosphere, multi-section, MPhys mux/demux, energy, KS at 0.03-30 x allowable)",
+        "OASConfig (TLC decides admissibility of configuration x regime records; covering sample) + entry-by-entry comparison of every component's reported sub-Jacobians with the COMPLETE numerical derivative of its own compute (every column kept in full, not through the declared sparsity pattern as check_partials stores it: missing non-zeros and undeclared dependencies are differences; complex step where trustworthy, Richardson FD otherwise), at two points of one live model (the second across the wave-drag onset), plus stand-alone components (atmosphere, multi-section, MPhys mux/demux, energy, KS at 0.03-30 x allowable with three aggregation parameters, MeshPointForces with non-default chordwise weights)",
         "A covering sample of admissible records (every field value and eleven field pairs of the spec's space: model kind, symmetry/side, ground plane, area type, reference axis, drag options, laminar class, tube/wingbox, load options, taper=1, zero twist, Mach below/above critical) is built as real models; for all 76 component classes inside them (plus stand-alone atmosphere, monotonic constraint, multi-section, MPhys, energy components) the Jacobian the framework receives through the declared sparsity pattern is compared entry by entry with the derivative of the component's own compute; the second linearisation after moving the live model checks for stale or accumulated non-zeros.",
         "Sampled real inputs (exploration); the reference can never be looser than max(2e-5, 5 x measured FD uncertainty); blocks declared fd/cs by the component are skipped; non-smooth points avoided (CL > 0.05, Mach away from critical, non-zero displacements). Fixed: F2 (Taper at taper=1), F9 (ViscousDrag d/dre at k_lam=1). " + TRUSTED,
         "5 C01, 3.1, 3.6",
@@ -197,7 +197,7 @@ def main():
         ],
         "checks": checks,
         "not_applicable": na,
-        "notes": "fix: commits in /repo: 82a326b, d58e861 (C03), 6f55fa9 (C06), aa07cb3 (C17), 97ec321, c6862e9 (C01), 641694b (C20, F14). Known findings F3-F7, F11, F13 in known_findings.json. See DESIGN.md section 6; seeded changes and which check catches which in DESIGN.md section 0.5 and seeded/*/meta.json.",
+        "notes": "fix: commits in /repo: 82a326b, d58e861 (C03), 6f55fa9 (C06), aa07cb3 (C17), 97ec321, c6862e9 (C01), 641694b (C20, F14), 036cf4c (C14, F15). Known findings F3-F7, F11, F13 in known_findings.json. See DESIGN.md section 6; seeded changes and which check catches which in DESIGN.md section 0.5 and seeded/*/meta.json.",
     }
     with open(os.path.join(HERE, "MANIFEST.json"), "w") as f:
         json.dump(m, f, indent=1)
